@@ -228,6 +228,12 @@ def gen_table_cases(c, regs, quick):
                         for op, kind in kinds:
                             cases.append(dict(stream="tables", op=op, kind=kind, cc=cc, cat=cat["code"], key=rt["key"],
                                               d=d, tags=tags, ext=ext, boundary=d in starts))
+                        # the same combo inside a document whose other rows use the same rate key in the other contexts
+                        others = [e for t, e in contexts_of(vals) if e != ext and not t]
+                        if others and (d in starts or d in FIXED_DATES):
+                            for kind in (0, 3, 5):
+                                cases.append(dict(stream="tables-decoys", op="invoice", kind=kind, cc=cc, cat=cat["code"], key=rt["key"],
+                                                  d=d, tags=tags, ext=ext, boundary=d in starts, decoys=others))
                 # composite key (Key.Has path) and unknown keys, one boundary date each
                 d0 = starts[-1] if starts else (2020, 1, 1)
                 for key in (rt["key"] + "+zz-extra", "zz-extra+" + rt["key"]):
@@ -352,8 +358,12 @@ def go_ext_of(case, n):
     return None
 
 
-def line_of(case, mode):
-    return case_line(case["op"], mode, case["cc"], case["cat"], case["key"], case["d"], case["tags"], case["ext"], case["kind"])
+def line_of(case, mode, for_go=False):
+    l = case_line(case["op"], mode, case["cc"], case["cat"], case["key"], case["d"], case["tags"], case["ext"], case["kind"])
+    if for_go and case.get("decoys"):
+        # further rows of the same document in other contexts (Go only: the model states what ONE combo receives)
+        l += " " + w([ext_w(e) for e in case["decoys"]])
+    return l
 
 
 def describe(case):
@@ -435,7 +445,7 @@ def run(c):
     cases = load_corpus() + gen_table_cases(c, {f: r for f, r in union.items() if f in code}, quick)
     lines1 = [line_of(x, 1) for x in cases]
     lines0 = [line_of(x, 0) for x in cases]
-    go = run_go(lines1)
+    go = run_go([line_of(x, 1, for_go=True) for x in cases])
     m1 = run_oracle(lines1)
     m0 = run_oracle(lines0)
     known_hits, viol = [], []
@@ -462,11 +472,12 @@ def run(c):
             describe(x), show(og), " or ".join(sorted(show(e) for e in exp)) if isinstance(exp, set) else show(exp))
         if cg != c1 and p_ok:
             what = "%s: implementation `%s` differs from the model `%s` (published table agrees with the implementation)" % (describe(x), g, a)
-        rep = {"case": l, "case_fields": {k: x[k] for k in ("op", "kind", "cc", "cat", "key", "d", "tags", "ext")},
+        gl = line_of(x, 1, for_go=True)
+        rep = {"case": l, "go_case": gl, "decoy_rows": x.get("decoys"), "case_fields": {k: x[k] for k in ("op", "kind", "cc", "cat", "key", "d", "tags", "ext")},
                "implementation": g, "model_after_fix": a, "model_as_shipped": b,
                "published_table_says": sorted(map(str, exp)) if isinstance(exp, set) else exp,
                "clause": "the percentage (and surcharge) a document receives is the table value with the latest start date on or before the tax date, a value taking effect on its start date itself",
-               "rerun": "echo '%s' | bin/vharness ; echo '%s' | bin/oracle" % (l, l)}
+               "rerun": "echo '%s' | bin/vharness ; echo '%s' | bin/oracle" % (gl, l)}
         if is_known:
             known_hits.append((what, rep))
         else:
@@ -560,7 +571,7 @@ def replay(path):
         return 0
     l = r["case"]
     build_harness()
-    print("implementation:       ", run_go([l], shards=1)[0])
+    print("implementation:       ", run_go([r.get("go_case") or l], shards=1)[0])
     print("model (after repair): ", run_oracle([l], shards=1)[0])
     l0 = l.split(" ")
     if len(l0) > 2 and l0[2] == "1":
